@@ -141,7 +141,7 @@ var codecByName = map[string]*codec{}
 var modelledCodecs = map[string]bool{}
 
 func init() {
-	for _, n := range strings.Fields("witness cond rule signer attr tx header0 header1 block0 block1 stateroot extensible item itemprot mptnode nef " + os.Getenv("WIRE_MODELLED")) {
+	for _, n := range strings.Fields("witness cond rule signer attr tx header0 header1 block0 block1 stateroot extensible item itemprot mptnode nef notification aer consensus0 consensus1 message0 message1 notaryreq p2p.version p2p.addr p2p.inv p2p.getblocks p2p.getblockbyindex p2p.headers0 p2p.headers1 p2p.merkleblock p2p.mptdata p2p.mptinv p2p.ping " + os.Getenv("WIRE_MODELLED")) {
 		modelledCodecs[n] = true
 	}
 }
@@ -149,7 +149,7 @@ func init() {
 func reg(c *codec) *codec {
 	if modelledCodecs[c.name] {
 		c.modelled = true
-		c.parse = true
+		c.parse = !strings.HasPrefix(c.name, "p2p.") && !strings.HasPrefix(c.name, "message") && c.name != "notaryreq"
 	}
 	codecs = append(codecs, c)
 	codecByName[c.name] = c
@@ -360,25 +360,13 @@ func initCodecs() {
 			p.Extensible = payload.Extensible{Category: p.Category, Sender: p.Sender, Witness: p.Witness}
 			return p.Hash().StringBE()
 		}
-		c.show = func(v any) string {
-			p := v.(*consensus.Payload)
-			return fmt.Sprintf("%d %d %d %d %s|%s", p.Type(), p.Height(), p.ValidatorIndex(), p.ViewNumber(), dumpAny(p.Payload()), dumpAny(p.Extensible.Witness))
-		}
+		c.show = func(v any) string { return showConsensus(v.(*consensus.Payload), sr) }
 		c.weight = 9
 	}
 
 	c = reg(serCodec("notaryreq", func() io.Serializable { return &payload.P2PNotaryRequest{} }, func(g *G) any { return g.notaryRequest() }))
 	c.hash = func(v any) string { return v.(*payload.P2PNotaryRequest).Hash().StringBE() }
-	c.show = func(v any) string {
-		r := v.(*payload.P2PNotaryRequest)
-		var s sb
-		showTx(&s, r.MainTransaction)
-		s.tok("|")
-		showTx(&s, r.FallbackTransaction)
-		s.tok("|")
-		showWitness(&s, &r.Witness)
-		return s.String()
-	}
+	c.show = showOfPayload
 	c.jsonRT = nil
 
 	// ---- NEF ----
@@ -552,9 +540,6 @@ func initCodecs() {
 			m := &network.Message{StateRootInHeader: sr}
 			r := io.NewBinReaderFromBuf(b)
 			err := m.Decode(r)
-			if errors.Is(err, payload.ErrTooManyHeaders) {
-				err = nil // the message is kept (truncated to the maximum) by design
-			}
 			return m, r.Len(), err
 		}
 		c.enc = func(v any) ([]byte, error) {
@@ -566,28 +551,12 @@ func initCodecs() {
 			m := v.(*network.Message)
 			return network.NewMessage(m.Command, m.Payload).Bytes()
 		}
-		c.show = func(v any) string {
-			m := v.(*network.Message)
-			if t, ok := m.Payload.(*transaction.Transaction); ok {
-				var s sb
-				showTx(&s, t)
-				return fmt.Sprintf("%d tx %s", m.Command, s.String())
-			}
-			if t, ok := m.Payload.(*block.Block); ok {
-				var s sb
-				showBlock(&s, t)
-				return fmt.Sprintf("%d block %s", m.Command, s.String())
-			}
-			if t, ok := m.Payload.(*payload.Extensible); ok {
-				var s sb
-				showExtensible(&s, t)
-				return fmt.Sprintf("%d ext %s", m.Command, s.String())
-			}
-			if t, ok := m.Payload.(*payload.P2PNotaryRequest); ok {
-				return fmt.Sprintf("%d notary %s", m.Command, codecByName["notaryreq"].show(t))
-			}
-			return fmt.Sprintf("%d %s", m.Command, dumpAny(m.Payload))
-		}
+		c.show = func(v any) string { return showMessage(v.(*network.Message)) }
+	}
+
+	for _, n := range []string{"p2p.version", "p2p.addr", "p2p.inv", "p2p.getblocks", "p2p.getblockbyindex", "p2p.headers0", "p2p.headers1",
+		"p2p.merkleblock", "p2p.mptdata", "p2p.mptinv", "p2p.ping"} {
+		codecByName[n].show = showOfPayload
 	}
 
 	// ---- manifest (JSON is its wire form) ----
